@@ -30,7 +30,7 @@ def make_scratch(mid):
     d = f"/tmp/vmut/{mid}"
     shutil.rmtree(d, ignore_errors=True)
     os.makedirs(d)
-    subprocess.run(["rsync", "-a", "--exclude", ".git", "--exclude", "docs", "--exclude", "benchmark", "--exclude", "paper",
+    subprocess.run(["rsync", "-a", "--exclude", ".git", "--exclude", "benchmark", "--exclude", "paper",
                     "--exclude", "__pycache__", REPO + "/", d + "/"], check=True)
     return d
 
